@@ -7,7 +7,7 @@ NEEDS_DRIVER = True
 RULE = ('subprocess runs: nesting construct (parens, brackets, CASE, function calls, subqueries, unclosed openers, BEGIN blocks, mixed) x depth (below, around and beyond the '
         'recursion limit) x recursion limit {200, 500, 1000, 3000} x entry point {parse, parsestream (at once and statement by statement with the deep statement second of three, and abandoned), split, format with option sets, the command line tool}; after a successful parse the str/repr/_pprint_tree/flatten/get_sublists/accessor calls at the same limit, the tree compared with the tree built under a high limit, the recursion limit of the interpreter unchanged; each followed by an ordinary call in the same process; '
         'successful results are checked for round trip and tree well-formedness (parent links, cached group values), formatted results for their significant tokens; every depth 1..85 at limit 80 '
-        '(parse + thirteen option sets; nineteen ways to nest); soak: 300 calls at depths from a quarter of the limit to beyond it, at two limits, in one process, then a moderately nested ordinary script; non-trivial = distinct (construct, depth, limit, entry point)')
+        '(parse + thirteen option sets; nineteen ways to nest); soak: 300 calls at depths from a quarter of the limit to beyond it, at two limits, in one process, then a moderately nested ordinary script; after EVERY case the trees, pieces and formattings of four ordinary scripts are compared with what the same calls gave at the start of the process (each subprocess accumulates some hundred failing calls); non-trivial = distinct (construct, depth, limit, entry point)')
 ASSUMPTIONS = ['CPython frame accounting and C-stack behaviour are observed, not modelled', 'lexer/splitter/grouping models tied by S-TREE on the nesting constructs (and by the streams of C01/C02/C04)']
 PARTIAL = ['over the model: the only failure of parse is RecursionError (parse_fails_only_by_depth), it is mapped to SQLParseError at every stage, enough depth always succeeds; what depth CPython needs for a given input (frame accounting, C stack) is observed by subprocess runs at several recursion limits, not modelled']
 
@@ -93,6 +93,21 @@ def later_ok():
     return (len(r) == 2 and ''.join(str(s) for s in r) == t and all(wf(s) for s in r)
             and sqlparse.split('select 1; select 2') == ['select 1;', 'select 2'] and sqlparse.format('select a from b', reindent=True) == 'select a\nfrom b'
             and sig(sqlparse.format(t, reindent=True, strip_comments=True, use_space_around_operators=True), {}) == sig(t, {}))
+ORDINARY = ['select a, (select max(b) from (select c from (select d from t where x in (1, (2))) u) v), case when f(g(h(1))) then (((1))) end from w where a = [1]; select 2',
+            'select foo(bar(x), 1) y, t1.c from t1 x, (select c from t2 where d = 1 order by c) z where x.k = z.k -- c\n group by 1',
+            'select a, b from t', 'create procedure p() begin if a then update t set b = f(c) where d > 1; end if; end']
+def snapshot():
+    # what ordinary calls give: the trees (classes and nesting), the pieces and three formattings
+    return [(shape(sqlparse.parse(t)), sqlparse.split(t), sqlparse.format(t, reindent=True), sqlparse.format(t, reindent_aligned=True, keyword_case='upper'),
+             sqlparse.format(t, strip_comments=True, use_space_around_operators=True)) for t in ORDINARY]
+BEFORE = snapshot()        # at the start of the process, before any pathological call
+_later_ok = later_ok
+def later_ok():
+    r = _later_ok()
+    if r is True and snapshot() != BEFORE:
+        # history: an ordinary call after the failures of this process must give what the same call gave before them
+        return 'ordinary calls give different results than before the pathological calls of this process'
+    return r
 out = []
 for kind, depth, limit, entry, opts in cases:
     text = build(kind, depth)
